@@ -497,6 +497,11 @@ theorem src_namedtuple_async (o : Oracle) (cfg : DictAnyCfg) (x : PyVal)
 theorem src_instance_to_dict : Src.instanceToDict =
     "if hasattr(val, '__dict__'):     instance_dict: Dict[str, Any] = val.__dict__     return instance_dict ; return {f.name: getattr(val, f.name) for f in fields(val) if hasattr(val, f.name)}" := rfl
 
+/-- the three class-derived validators' `__init__`s (schema derivation, `_fast_keys_*`, `_keys_set`, `_unknown_keys_err`,
+    `_disallow_synchronous`): pinned text -/
+theorem src_class_inits : Src.classInits =
+    ["DataclassValidator.__init__: if not is_dataclass(data_cls):     raise TypeError('Must be a dataclass') ; self.data_cls = cast(Type[_DCT], data_cls) ; self.fail_on_unknown_keys = fail_on_unknown_keys ; self.overrides = overrides ; self.coerce = coerce ; if validate_object and validate_object_async:     _raise_cannot_define_validate_object_and_validate_object_async() ; self.validate_object = validate_object ; self.validate_object_async = validate_object_async ; self._disallow_synchronous = bool(validate_object_async) ; keys_with_defaults: Set[str] = {k for k, v in inspect.signature(self.data_cls).parameters.items() if v.default != inspect.Parameter.empty} ; if sys.version_info >= (3, 9):     type_hints = get_type_hints(self.data_cls, include_extras=True) else:     type_hints = get_type_hints(self.data_cls) ; overrides = self.overrides or {} ; self.schema = {field: overrides[field] if field in overrides else typehint_resolver(annotations) for field, annotations in type_hints.items()} ; self.required_fields = [] ; self._keys_set = set() ; self._fast_keys_sync = [] ; self._fast_keys_async = [] ; for key, val in self.schema.items():     self._keys_set.add(key)     is_required = key not in keys_with_defaults     if is_required:         self.required_fields.append(key)     self._fast_keys_sync.append((key, _wrap_sync_validator(val), is_required))     self._fast_keys_async.append((key, _wrap_async_validator(val), is_required)) ; self._unknown_keys_err: ExtraKeysErr = ExtraKeysErr(set(self.schema.keys()))", "NamedTupleValidator.__init__: self.named_tuple_cls = named_tuple_cls ; self.overrides = overrides ; self.fail_on_unknown_keys = fail_on_unknown_keys ; self.coerce = coerce ; if validate_object and validate_object_async:     _raise_cannot_define_validate_object_and_validate_object_async() ; self.validate_object = validate_object ; self.validate_object_async = validate_object_async ; self._disallow_synchronous = bool(validate_object_async) ; overrides = self.overrides or {} ; if sys.version_info >= (3, 9):     type_hints = get_type_hints(self.named_tuple_cls, include_extras=True) else:     type_hints = get_type_hints(self.named_tuple_cls) ; keys_with_defaults: Set[str] = {k for k, v in inspect.signature(self.named_tuple_cls).parameters.items() if v.default != inspect.Parameter.empty} ; self.schema = {field: overrides[field] if field in overrides else typehint_resolver(annotations) for field, annotations in type_hints.items()} ; self.required_fields = [] ; self._keys_set = set() ; self._fast_keys_sync = [] ; self._fast_keys_async = [] ; for key, val in self.schema.items():     self._keys_set.add(key)     is_required = key not in keys_with_defaults     if is_required:         self.required_fields.append(key)     self._fast_keys_sync.append((key, _wrap_sync_validator(val), is_required))     self._fast_keys_async.append((key, _wrap_async_validator(val), is_required)) ; self._unknown_keys_err: ExtraKeysErr = ExtraKeysErr(set(self.schema.keys()))", "TypedDictValidator.__init__: if not _is_typed_dict_cls(td_cls):     raise TypeError('must be a TypedDict subclass') ; self.td_cls = td_cls ; self.overrides = overrides ; self.fail_on_unknown_keys = fail_on_unknown_keys ; self.coerce = coerce ; if validate_object is not None and validate_object_async is not None:     _raise_cannot_define_validate_object_and_validate_object_async() ; self.validate_object = validate_object ; self.validate_object_async = validate_object_async ; self._disallow_synchronous = bool(validate_object_async) ; if sys.version_info >= (3, 9):     self.required_keys: FrozenSet[str] = getattr(td_cls, '__required_keys__', frozenset())     type_hints = get_type_hints(self.td_cls, include_extras=True) else:     self.required_keys = frozenset([k for k in td_cls.__annotations__]) if getattr(td_cls, '__total__', True) else frozenset()     type_hints = get_type_hints(self.td_cls) ; overrides = self.overrides or {} ; self.schema = {field: overrides[field] if field in overrides else typehint_resolver(annotations) for field, annotations in type_hints.items()} ; self._keys_set = set() ; self._fast_keys_sync = [] ; self._fast_keys_async = [] ; for key, val in self.schema.items():     self._keys_set.add(key)     is_required = key in self.required_keys     self._fast_keys_sync.append((key, _wrap_sync_validator(val), is_required))     self._fast_keys_async.append((key, _wrap_async_validator(val), is_required)) ; self._unknown_keys_err: ExtraKeysErr = ExtraKeysErr(set(self.schema.keys()))"] := rfl
+
 /-! ### non-vacuity: a dataclass `C(a: int, b: str = "d")`, validated from an instance and from a dict without `b` -/
 
 example : runDictAnyMethod
